@@ -391,3 +391,99 @@ Definition call_spec (m : meth) (r : recv) (args : list arg) : option res :=
           end
       end
   end.
+
+(* ---------- argument conversion order (the step order of each algorithm in 15.5.4) ---------- *)
+(* An argument is either a primitive or an object {toString, valueOf} whose two methods log their
+   call (2*id for toString, 2*id+1 for valueOf), then either throw or return a primitive string /
+   number.  ToString(obj) calls toString (8.12.8 hint String), ToNumber(obj) calls valueOf. *)
+Inductive earg :=
+| EPlain (a : arg)
+| EObj (id : Z) (sv : str) (nbits : Z) (throwS throwN : bool).
+Inductive erecv :=
+| ERLit (u : str)
+| ERObj (id : Z) (sv : str) (throwS : bool).
+Inductive conv := KS | KN.
+
+Definition placeholder (e : earg) : arg := match e with EPlain a => a | EObj _ _ _ _ _ => AUndef end.
+Definition e_undef (e : earg) : bool := match e with EPlain AUndef => true | _ => false end.
+Definition earg_at (l : list earg) (i : nat) : earg := nth i l (EPlain AUndef).
+
+Definition convert (k : conv) (e : earg) : list Z * option arg :=
+  match e with
+  | EPlain a => ([], Some a)
+  | EObj id sv nb ts tn =>
+      match k with
+      | KS => ([2 * id], if ts then None else Some (AStr sv))
+      | KN => ([2 * id + 1], if tn then None else Some (ANum nb))
+      end
+  end.
+
+Fixpoint set_nth (i : nat) (a : arg) (l : list arg) : list arg :=
+  match i, l with
+  | O, _ :: t => a :: t
+  | S i', x :: t => x :: set_nth i' a t
+  | _, [] => []
+  end.
+
+(* run the conversions of a plan in order; stop at the first one that throws *)
+Fixpoint conv_seq (plan : list (nat * conv)) (eargs : list earg) (cur : list arg) (log : list Z)
+  : list Z * option (list arg) :=
+  match plan with
+  | [] => (log, Some cur)
+  | (i, k) :: plan' =>
+      if (length eargs <=? i)%nat then conv_seq plan' eargs cur log else
+      let '(l, r) := convert k (earg_at eargs i) in
+      match r with
+      | None => (log ++ l, None)
+      | Some a => conv_seq plan' eargs (set_nth i a cur) (log ++ l)
+      end
+  end.
+
+Fixpoint all_ks (i : nat) (n : nat) : list (nat * conv) :=
+  match n with O => [] | S n' => (i, KS) :: all_ks (S i) n' end.
+Fixpoint all_kn (i : nat) (n : nat) : list (nat * conv) :=
+  match n with O => [] | S n' => (i, KN) :: all_kn (S i) n' end.
+
+(* the order in which 15.5.4.x converts the arguments (after ToString(this)) *)
+Definition plan_spec (m : meth) (eargs : list earg) : list (nat * conv) :=
+  match m with
+  | MCharAt | MCharCodeAt => [(0%nat, KN)]
+  | MIndexOf | MLastIndexOf => [(0%nat, KS); (1%nat, KN)]
+  | MSlice | MSubstring | MSubstr =>
+      (0%nat, KN) :: (if e_undef (earg_at eargs 1) then [] else [(1%nat, KN)])
+  | MSplit =>   (* 15.5.4.14: step 5 ToUint32(limit), step 8 ToString(separator), step 9 lim = 0 *)
+      (if e_undef (earg_at eargs 1) then [] else [(1%nat, KN)]) ++
+      (if e_undef (earg_at eargs 0) then [] else [(0%nat, KS)])
+  | MConcat => all_ks 0 (length eargs)
+  | _ => []
+  end.
+
+(* one call with effectful arguments: result (8 = the conversion threw) and the conversion log.
+   mo = None stands for String.fromCharCode(args). *)
+Definition effect_step (plan : meth -> str -> list earg -> list (nat * conv))
+    (call : meth -> recv -> list arg -> option res) (from : list arg -> option str)
+    (mo : option meth) (er : erecv) (eargs : list earg) : option (res * list Z) :=
+  match mo with
+  | None =>
+      match conv_seq (all_kn 0 (length eargs)) eargs (map placeholder eargs) [] with
+      | (log, None) => Some (VErr 8, log)
+      | (log, Some args) => option_map (fun s => (VStr s, log)) (from args)
+      end
+  | Some m =>
+      match m, er with
+      | (MCharAt | MCharCodeAt | MLength | MIndex), ERObj _ _ _ => None
+      | _, _ =>
+        let '(log0, this) := match er with
+                             | ERLit u => ([], Some (RLit u, u))
+                             | ERObj id sv ts => ([2 * id], if ts then None else Some (RObj sv, sv))
+                             end in
+        match this with
+        | None => Some (VErr 8, log0)
+        | Some (r, s) =>
+            match conv_seq (plan m s eargs) eargs (map placeholder eargs) log0 with
+            | (log, None) => Some (VErr 8, log)
+            | (log, Some args) => option_map (fun v => (v, log)) (call m r args)
+            end
+        end
+      end
+  end.
